@@ -2,6 +2,11 @@ SPECIFICATION ObsSpec
 CONSTANTS
   Node = {1, 2, 3, 4, 5}
   Weaken = {}
+  MCCl <- EmptyCl
+  PszSet <- EmptySet
+  CCSet <- EmptySet
+  Actors <- DummyActors
+  Bound <- DummyBound
 INVARIANT Done
 CHECK_DEADLOCK FALSE
 VIEW ObsView
